@@ -2,8 +2,8 @@
    Property theorems only; proofs in lib/RecvProofs.v and lib/BananaRecvProofs.v. *)
 From Coq Require Import ZArith List Bool Lia.
 Import ListNotations.
-Require Import Verif.lib.PyLite Verif.gen.BananaGen Verif.gen.NegotiateGen Verif.lib.Token Verif.lib.Recv Verif.lib.RecvProofs
-               Verif.lib.BananaRecv Verif.lib.BananaRecvProofs Verif.lib.Negotiate Verif.lib.NegotiateProofs
+Require Import Verif.lib.PyLite Verif.gen.BananaGen Verif.gen.NegotiateGen Verif.gen.RecvGen Verif.lib.Token Verif.lib.Recv Verif.lib.RecvProofs Verif.lib.RecvTie Verif.lib.NegCapTie
+               Verif.lib.BananaRecv Verif.lib.BananaRecvProofs
                Verif.lib.OpenerBase Verif.gen.OpenerGen Verif.lib.OpenerProofs.
 Local Open Scope Z_scope.
 
@@ -42,11 +42,11 @@ Proof. exact (skipping_stores_nothing ctx ev begin_body finish_body step_nobody 
 Theorem C11_bound : forall B, 0 <= B ->
   (forall c ty hdr, has_body ty = true -> begin_body c ty hdr = BAccept -> blen ty hdr <= B) ->
   forall cs c, lenZ (r_buf (fst (feed_all ctx ev begin_body finish_body step_nobody e1 e2 e3 (init c) cs))) < 65 + Z.max B SIZE_LIMIT.
-Proof.
-  intros B HB HA cs c.
-  apply (buffer_bounded ctx ev begin_body finish_body step_nobody e1 e2 e3 B HA cs (init c)).
-  unfold held_ok, init, mk, lenZ. cbn [r_buf List.length Z.of_nat]. unfold SIZE_LIMIT. lia.
-Qed.
+Proof. exact (buffer_bounded_from_init ctx ev begin_body finish_body step_nobody e1 e2 e3). Qed.
+(* NOTE: the hypothesis quantifies over ALL contexts, so this form is instantiable only by semantics whose tasters are bounded in
+   every state.  The form that real receivers instantiate carries an invariant on the unslicers that can be on the stack:
+   C11_bound_any_unslicers below, instantiated for the standard unslicers under real constraint objects by
+   C11_schema_bound_standard_unslicers (with C11_bound_example as a concrete inhabitant). *)
 
 (* "a header longer than 64 bytes ends the connection" *)
 Theorem C11_header_cap : forall c b m, List.length b = 65%nat -> Forall (fun x => x < 128) b ->
@@ -67,10 +67,22 @@ Theorem C11_taster_respects_limit : forall mode f ty size,
 Proof. exact taster_respects_limit. Qed.
 Print Assumptions C11_taster_respects_limit.
 
-(* the negotiation phase refuses more than 4096 buffered bytes (constant read from Negotiation.dataReceived) *)
-Theorem C11_negotiation_cap : forall n, header_refused n = true <-> 4096 < n.
-Proof. exact header_cap_4096. Qed.
+(* the negotiation phase (negotiate.py Negotiation.dataReceived, guard translated into gen/NegotiateGen.header_verdict: 0 = refuse
+   "Header too long", 1 = wait for more, 2 = split off a block): a block whose terminator lies beyond 4096 bytes is refused; without a
+   terminator the attempt is abandoned once 4096 + 4 bytes are buffered (a terminator that starts within the limit could still be
+   completed), and below that it waits; a block that ends within the limit is split off *)
+Theorem C11_negotiation_cap : forall eoh buflen, 4096 < eoh -> header_verdict eoh buflen = 0.
+Proof. exact neg_cap_beyond. Qed.
+Theorem C11_negotiation_cap_no_terminator : forall buflen, header_verdict (-1) buflen = 0 <-> 4100 <= buflen.
+Proof. exact neg_cap_no_terminator. Qed.
+Theorem C11_negotiation_waits_below_cap : forall buflen, header_verdict (-1) buflen = 1 <-> buflen < 4100.
+Proof. exact neg_waits_below_cap. Qed.
+Theorem C11_negotiation_block_within_cap : forall eoh buflen, 0 <= eoh <= 4096 -> header_verdict eoh buflen = 2.
+Proof. exact neg_block_within_cap. Qed.
 Print Assumptions C11_negotiation_cap.
+Print Assumptions C11_negotiation_cap_no_terminator.
+Print Assumptions C11_negotiation_waits_below_cap.
+Print Assumptions C11_negotiation_block_within_cap.
 
 (* Index tokens (the strings after an OPEN) are judged by the ROOT unslicer, not by the schema: on a Broker the first is
    bounded by the longest opentype string and the class name after OPEN copyable by the longest registered Copyable name;
@@ -95,3 +107,82 @@ Print Assumptions C11_pb_first_index_token_bounded.
 Print Assumptions C11_pb_copyable_classname_bounded.
 Print Assumptions C11_root_index_tokens_bounded.
 Print Assumptions C11_index_positions.
+
+(* ======================================================================================================================
+   ROUND 5.  "under a schema with finite size limits the bytes held for a partly received message never exceed the schema's
+   bound": for the STANDARD unslicers (RootUnslicer, list, tuple, dict, set, immutable-set, unicode, boolean, none) under a tree
+   of constraint objects whose taster tables are DATA (read from the live constraint objects by the harness), the bound is
+   computed in Coq from those tables (lib/StdUnsl.sbound) and holds for all byte sequences, all chunkings and all taster tables. *)
+Require Import Verif.gen.RecvGen Verif.lib.Unsl Verif.lib.UnslProofs Verif.lib.StdUnsl Verif.lib.StdUnslProofs Verif.lib.RecvTie.
+
+Theorem C11_schema_bound_standard_unslicers : forall mi lg c Bs cs, sbound c = Some Bs ->
+  lenZ (r_buf (fst (sfeed_all mi lg (init (sctx0 (Some c))) cs))) < 65 + Z.max (Z.max (Z.max Bs (Z.max mi lg)) 8) SIZE_LIMIT.
+Proof. exact std_buffer_bounded. Qed.
+Print Assumptions C11_schema_bound_standard_unslicers.
+
+(* what the bound rests on: a token that a constraint's taster accepts fits the constraint's bound ... *)
+Theorem C11_taster_accepts_within_bound : forall c ty size B, usized ty = true -> ole (sbound c) B -> staste c ty size = OOk tt -> size <= B.
+Proof. exact staste_bound. Qed.
+(* ... every standard unslicer applies to its next token a constraint of its own slot (the i-th of a tuple, key or value of a
+   dict by parity, the item constraint of a list / set), or refuses it when the container is full ... *)
+Theorem C11_unslicer_check_within_bound : forall B f ty size, SP B f -> usized ty = true -> std_check f ty size = OOk tt -> size <= B.
+Proof. exact std_P_check. Qed.
+(* ... and a child unslicer inherits a bound no larger than its parent's slot *)
+Theorem C11_child_inherits_bound : forall B, 0 <= B -> forall st ot ch, Forall (SP B) st -> std_do_open st ot = OOk (Some ch) -> SP B ch.
+Proof. exact std_P_open. Qed.
+Print Assumptions C11_taster_accepts_within_bound.
+Print Assumptions C11_unslicer_check_within_bound.
+Print Assumptions C11_child_inherits_bound.
+
+(* the same bound for EVERY unslicer semantics whose reachable unslicers (P) have tasters bounded by B *)
+Theorem C11_bound_any_unslicers :
+  forall (fr : Type) u_check u_opener_check u_do_open u_start u_child u_close u_finish u_report (P : fr -> Prop) (B : Z),
+  (forall st ot ch, Forall P st -> u_do_open st ot = OOk (Some ch) -> P ch) ->
+  (forall ch n ch', P ch -> u_start ch n = OOk ch' -> P ch') ->
+  (forall f v es f', P f -> u_child f v = (es, OOk f') -> P f') ->
+  (forall f ty size, P f -> usized ty = true -> u_check f ty size = OOk tt -> size <= B) ->
+  (forall st ty size ot, usized ty = true -> u_opener_check st ty size ot = OOk tt -> size <= B) ->
+  forall cs s, good fr P B s -> good fr P B (fst (ufeed_all fr u_check u_opener_check u_do_open u_start u_child u_close u_finish u_report s cs)).
+Proof. intros. eapply unsl_buffer_bounded_inv; eauto. Qed.
+Print Assumptions C11_bound_any_unslicers.
+
+(* non-vacuity: DictOf(ByteString(3), TupleOf(ByteString(5), Integer(maxBytes=8))) has bound 8 *)
+Example C11_sbound_example :
+  let b (n : Z) := SPrim {| t_taster := [(130, Some n); (135, None)]; t_strict := false; t_opens := Some [] |} in
+  let i8 := SPrim {| t_taster := [(129, None); (131, None); (133, Some 8); (134, Some 8)]; t_strict := false; t_opens := Some [] |} in
+  let op (k : Z) := {| t_taster := [(136, None)]; t_strict := false; t_opens := Some [k] |} in
+  sbound (SDict (op 5) (b 3) (STuple (op 2) [b 5; i8]) None) = Some 8.
+Proof. reflexivity. Qed.
+
+(* ... and the theorem instantiated: under that constraint the receiver never holds 1065 bytes, whatever arrives and however it is chunked *)
+Example C11_bound_example :
+  let b (n : Z) := SPrim {| t_taster := [(130, Some n); (135, None)]; t_strict := false; t_opens := Some [] |} in
+  let i8 := SPrim {| t_taster := [(129, None); (131, None); (133, Some 8); (134, Some 8)]; t_strict := false; t_opens := Some [] |} in
+  let op (k : Z) := {| t_taster := [(136, None)]; t_strict := false; t_opens := Some [k] |} in
+  forall cs, lenZ (r_buf (fst (sfeed_all 13 0 (init (sctx0 (Some (SDict (op 5) (b 3) (STuple (op 2) [b 5; i8]) None)))) cs))) < 1065.
+Proof. intros b i8 op cs. apply (std_buffer_bounded 13 0 _ 8 cs). reflexivity. Qed.
+
+(* "rejected bodies are skipped as they arrive" / "decides after reading at most 65 bytes": the translated dispatch clauses of
+   handleData (gen/RecvGen.v) do, for every token kind with a body, what the tokenizer model does *)
+Theorem C11_tie_rejected_body_is_skipped : forall ty hdr have, has_body ty = true ->
+  hd_rejected_incomplete ty hdr have = Some (blen ty hdr - have).
+Proof. exact tie_rejected_incomplete. Qed.
+Theorem C11_tie_accepted_body_waits : forall ty hdr have, hd_accepted_incomplete ty hdr have = None.
+Proof. exact tie_accepted_incomplete. Qed.
+Theorem C11_tie_skip_prologue : forall (ctx ev : Type) bb fb sn e1 e2 e3 (s : rstate ctx) chunk,
+  r_dead s = false -> 0 <= r_skip s ->
+  feed ctx ev bb fb sn e1 e2 e3 s chunk =
+  match hd_prologue (lenZ chunk) (r_skip s) with
+  | (k, None) => (mk (r_ctx s) (r_buf s) k false, [])
+  | (_, Some d) => let b := r_buf s ++ skipn (Z.to_nat d) chunk in loop ctx ev bb fb sn e1 e2 e3 (S (List.length b)) (r_ctx s) b
+  end.
+Proof. exact tie_feed_prologue. Qed.
+Theorem C11_tie_header_window : hd_window = 65 /\ hd_max_header = 64 /\ hd_hibit = 128.
+Proof. exact tie_header_window. Qed.
+Theorem C11_tie_error_oversize : forall hdr, hd_error_oversize hdr = (SIZE_LIMIT <? hdr).
+Proof. exact tie_error_oversize. Qed.
+Print Assumptions C11_tie_rejected_body_is_skipped.
+Print Assumptions C11_tie_accepted_body_waits.
+Print Assumptions C11_tie_skip_prologue.
+Print Assumptions C11_tie_header_window.
+Print Assumptions C11_tie_error_oversize.
